@@ -78,7 +78,8 @@ func TestC03Mix(t *testing.T) {
 		if v.Deadlock {
 			run.Violation("mix:deadlock", "the concurrent API mix stopped making progress with goroutines parked below ebu frames", map[string]any{"case": curCase, "dump": v.Dump[:min(len(v.Dump), 30000)]})
 		} else {
-			run.Inconclusive("watchdog fired without a confirmed deadlock")
+			run.Count("watchdog_slow_windows", 1)
+			return
 		}
 		run.Finish()
 		watchdog.Exit()
